@@ -48,7 +48,8 @@ def preflight():
 
 def gen(seed: int, tier: str) -> dict[str, Any]:
     rng = random.Random(seed)
-    sync = rng.choice(["none", "one", "one", "dup", "two", "forged", "late", "forged_then_one", "one_lower", "one_higher"])
+    sync = rng.choice(["none", "one", "one", "dup", "two", "forged", "late", "forged_then_one", "one_lower", "one_higher",
+                       "one+stale"])
     horizon = rng.choice([5.0, 15.0, 40.0, 90.0])
     ops = []
     n = rng.choice([2, 5, 10, 20])
@@ -72,9 +73,11 @@ def gen(seed: int, tier: str) -> dict[str, Any]:
                     "off": rng.choice([-20, -60, -90, -99, -400, 30])})
         ops.append({"t": round(tb + rng.choice([0.006, 0.01, 0.03]), 6), "op": "send", "id": 102 + 3 * j})
     ops.sort(key=lambda o: o["t"])
-    return {"seed": seed, "tier": "S" if sync != "dup" else "P",
-            "config": {"sync": sync, "latency_ms": rng.choice([1000, 1000, 2000, 500]), "batch": 1 if sync != "dup" else rng.choice([1, 3]),
-                       "peer_base": rng.choice([5_000, 1_000_000, 2_000_000, 10 ** 9])},
+    return {"seed": seed, "tier": "S" if sync not in ("dup", "one+stale") else "P",
+            "config": {"sync": sync, "latency_ms": rng.choice([1000, 1000, 2000, 500]),
+                       "batch": 1 if sync not in ("dup", "one+stale") else rng.choice([1, 3, 3]),
+                       "peer_base": rng.choice([5_000, 1_000_000, 2_000_000, 10 ** 9]) if sync != "one+stale" else 10 ** 9,
+                       "stale_ahead": rng.choice([1, 5_000, 3_600_000])},
             "ops": ops}
 
 
@@ -162,6 +165,19 @@ def run(plan: dict[str, Any]) -> dict[str, Any]:
                     reply(pv, lat=0.02)
                 elif mode == "late":
                     reply(pv, lat=30.0)
+                elif mode == "one+stale":
+                    # the authentic reply (group timer far ahead of the client's own clock) and, right behind it in the same
+                    # burst, a replayed genuine wrapper whose timer value is ahead of the client's unsynchronised clock but
+                    # hours behind the group timer
+                    reply(pv)
+                    stale = timer.current_timer_value() + cfg.get("stale_ahead", 5000)
+                    if stale < pv - 10 * tol:
+                        ind_ = W.routing_indication(W.cemi_ldata(W.L_DATA_IND, 0x1107, W.ga(1, 1, 2),
+                                                                 tpci_apci=W.gv_write((900).to_bytes(2, "big"))))
+                        info["stale"] = {"value": stale, "group": pv}
+                        R.extra_faults["stale_wrapper_behind_sync_reply"] += 1
+                        sock.sendto(C.wrap(key, 0, stale.to_bytes(6, "big"), b"\x00\xfa\x12\x34\x56\x78", b"\x00\x01", ind_),
+                                    MCAST, lat=0.01, nofault=True)
             return handler
 
         for i, p in enumerate(peers):
@@ -270,6 +286,10 @@ def run(plan: dict[str, Any]) -> dict[str, Any]:
                     R.violate("C30.timely-only", "late-wrapper-forwarded",
                               f"wrapper {f['pid']} timer {values[f['pid']]} forwarded although local timer was {local} (tolerance {tol} ms)")
     fwd_ids = {f["pid"] for f in forwarded}
+    if "stale" in info and 900 in fwd_ids:
+        R.violate("C30.timely-only", "late-wrapper-forwarded:behind-sync-reply",
+                  f"wrapper with timer {info['stale']['value']} forwarded although the authenticated group timer received just "
+                  f"before it is {info['stale']['group']} (tolerance {tol} ms)")
     for i in wrapped_ids:
         o = ops[i]
         if o["op"] == "wrapped" and i not in fwd_ids and i in samples and i in values and values[i] > samples[i] - tol + 1:
